@@ -4,9 +4,12 @@ import J5V.Props.C19
 #print axioms J5V.Props.C19.C19_no_panic
 #print axioms J5V.Props.C19.C19_wellformed
 #print axioms J5V.Props.C19.C19_fmtDiffs_wellformed
+#print axioms J5V.Props.C19.C19_trailing_blank
+#print axioms J5V.Props.C19.C19_apply_eq_fmt
 #print axioms J5V.Props.C19.C19_apply_eq_fmt_partial
 #print axioms J5V.Props.C19.C19_fmtDiffs_apply
 #print axioms J5V.Props.C19.C19_apply_document
 #print axioms J5V.Props.C19.trailingBlankB_sound
 #print axioms J5V.Props.C19.C19_src_fmtDiffs_conds
+#print axioms J5V.Props.C19.C19_src_newline_class
 #print axioms J5V.Props.C19.C19_src_rangeLines
